@@ -1083,9 +1083,9 @@ func (self *LockManager) ProcessLockData(command *protocol.LockCommand, lock *Lo
 		}
 	case protocol.LOCK_DATA_COMMAND_TYPE_PIPELINE:
 		index, buf := 0, lockCommandData.Data[lockCommandData.GetValueOffset():]
-		for index < len(buf) {
+		for index+4 <= len(buf) {
 			dataLen := int(uint32(buf[index]) | uint32(buf[index+1])<<8 | uint32(buf[index+2])<<16 | uint32(buf[index+3])<<24)
-			if index+4+dataLen > len(buf) {
+			if dataLen < 2 || index+4+dataLen > len(buf) {
 				break
 			}
 			command.Data = protocol.NewLockCommandDataFromOriginBytes(buf[index : index+4+dataLen])
